@@ -707,7 +707,14 @@ def rule_sg(ctx):
     ctx.report.floor('__iter__ signatures with with_key', n, 10)
 
 
+def rule_cs(ctx):
+    """items() / keys() / lookup paths never rely on a capability the stage itself does not implement"""
+    n = K.self_capability_stubs(ctx, 'CS')
+    ctx.report.floor('own-capability calls in the family', n, 20)
+
+
 def run(ctx):
+    rule_cs(ctx)
     rule_sg(ctx)
     rule_mv(ctx)
     rule_kw(ctx)
